@@ -54,6 +54,8 @@ pub fn gen_transform(rng: &mut Rng, max_log: u32) -> TransformParams {
         a.min(b) as u32
     };
     let size = 1usize << n;
+    // rarely: very long shards (beyond 1024 blocks, not a multiple of it)
+    let shard_len_64 = if n <= 4 && rng.chance(1, 60) { *rng.pick(&[1025usize, 1030, 2049, 1024]) } else { shard_len_64 };
     let shard_len_64 = if n > 10 { 1 } else { shard_len_64 };
     let pos = match rng.below(4) {
         0 => 0,
